@@ -139,6 +139,9 @@ def _s(file, fns, ep):
 _s('auth/api/iam/openid4vp.go', ['Wrapper.getClientMetadataFromRequest', 'Wrapper.getPresentationDefinitionFromRequest'], 'iam.handleAuthorizeRequestFromVerifier')
 _s('auth/client/iam/client.go', ['HTTPClient.PresentationDefinition', 'checkNoNullEntries'], 'iamclient.PresentationDefinition')
 _s('vcr/pe/presentation_definition.go', ['PresentationDefinition.Match', 'PresentationDefinition.matchBasic', 'PresentationDefinition.matchSubmissionRequirements'], 'pe.match+validate (parallel-array invariant of Match; the PE model is C12)')
+_s('vcr/pe/util.go', ['ParseEnvelope', 'parseJSONArrayEnvelope', 'parseJSONObjectOrStringEnvelope', 'tryParseJSONArray'], 'pe.ParseEnvelope (JWT claim combinations) / iam.HandleAuthorizeResponse')
+_s('network/transport/v2/conversation.go', ['conversationManager.check', 'Envelope_TransactionListQuery.checkResponse', 'Envelope_TransactionRangeQuery.checkResponse', 'Envelope_State.checkResponse', 'Envelope_TransactionList.parseTransactions'], 'v2.envelope (reply-type-confusion matrix: every request type × every reply handler, live conversation id)')
+_s('network/transport/v2/transactionlist_handler.go', ['protocol.handleTransactionList'], 'v2.envelope')
 _s('vcr/pe/presentation_submission.go', ['PresentationSubmission.Validate', 'PresentationSubmission.Resolve', 'PresentationSubmissionBuilder.Build'], 'pe.match+validate')
 _s('discovery/module.go', ['Module.Search'], 'pe.match+validate (the indexing loop of Search is replayed on Match results; the discovery model is C16)')
 _s('vcr/revocation/statuslist2021_verifier.go', ['StatusList2021.Verify', 'StatusList2021.statusList', 'StatusList2021.update', 'StatusList2021.download', 'StatusList2021.verify', 'StatusList2021.validate'], 'revocation.Verify / revocation.statusListCredential')
